@@ -330,10 +330,10 @@ def registry_names():
 
 def c13_reject(case: int, api: int, interactive: int) -> bool:
   """
-  pre: 0 <= case < 8 and 0 <= api < 3 and 0 <= interactive < 3
+  pre: 0 <= case < 9 and 0 <= api < 3 and 0 <= interactive < 3
   """
   world.fresh()
-  case = rt.pick(case, 8)
+  case = rt.pick(case, 9)
   api = rt.pick(api, 3)
   interactive = rt.pick(interactive, 3)   # 0 no, 1 inside interactive_mode, 2 after a block that raised
   rt.sig(('reject', case, api, interactive), nontrivial=True)
@@ -377,6 +377,14 @@ def c13_reject(case: int, api: int, interactive: int) -> bool:
         if gin.get_configurable('vw13.c13r')() != ('second', 1):
           return rt.no('re-registered version not used')
         return after == before
+      if case == 8 and interactive == 1:
+        return exc is None
+      if case == 8:
+        if exc is None or not isinstance(exc, ValueError):
+          return rt.no('an equal-but-different object under an existing name must be rejected')
+        if gin.get_configurable('vw13.c13eq')() != ('eq', 1, 1):
+          return rt.no('existing entry replaced by an equal-but-different object')
+        return True
       if case == 7:
         # same object under the same name again: allowed, nothing changes
         return exc is None and after == before
@@ -389,11 +397,28 @@ def c13_reject(case: int, api: int, interactive: int) -> bool:
       return True
     finally:
       for n in list(registry_names()):
-        if n.startswith('vw13.') or n in ('c13r', 'bad-mod.c13x') or n.startswith('1bad') or '..' in n:
+        if n.startswith('vw13.') or n in ('c13r', 'bad-mod.c13x', 'c13eq') or n.startswith('1bad') or '..' in n:
           gc._REGISTRY.pop(n)
       gc._INVERSE_REGISTRY.pop(first, None)
       gc._INVERSE_REGISTRY.pop(second, None)
       gc._INTERACTIVE_MODE = False
+
+
+class EqCallable:
+  """Callable objects that compare equal by label (identity must still decide)."""
+
+  def __init__(self, label, k):
+    self.label, self.k = label, k
+    self.__name__ = 'eqc'
+
+  def __call__(self, a=1):
+    return ('eq', self.k, a)
+
+  def __eq__(self, other):
+    return isinstance(other, EqCallable) and other.label == self.label
+
+  def __hash__(self):
+    return hash(self.label)
 
 
 CASES = [
@@ -405,6 +430,8 @@ CASES = [
     lambda reg, f: reg(f, name='c13x', deny=['nope']),       # 5 unknown name in denylist
     lambda reg, f: reg(f, name='c13x', allow=['a'], deny=['a']),  # 6 both lists
     lambda reg, f: None,                                     # 7 placeholder (same object again, below)
+    lambda reg, f: (reg(EqCallable('same', 1), name='c13eq'),        # 8 a DIFFERENT object that merely
+                    reg(EqCallable('same', 2), name='c13eq')),       #   compares equal to the registered one
 ]
 
 
@@ -429,9 +456,9 @@ HARNESSES = {
         anchors=['gin.config:_make_configurable', 'gin.config:_validate_parameters', 'gin.config:interactive_mode'],
         smoke=[dict(case=0, api=1, interactive=0), dict(case=0, api=0, interactive=1),
                dict(case=4, api=2, interactive=2)],
-        tiers={'quick': dict(split=dict(case=list(range(7))), budget_s=100),
-               'thorough': dict(split=dict(case=list(range(7)), api=[0, 1, 2]), budget_s=300)},
-        bounds='7 rejected registrations (different object under an existing full name, invalid name x2, invalid module, '
+        tiers={'quick': dict(split=dict(case=list(range(9))), budget_s=100),
+               'thorough': dict(split=dict(case=list(range(9)), api=[0, 1, 2]), budget_s=300)},
+        bounds='8 rejected registrations (incl. a different callable object that compares equal to the registered one; (different object under an existing full name, invalid name x2, invalid module, '
                'unknown allowlist / denylist name, both lists) x 3 APIs x {outside, inside interactive mode, after an '
                'interactive block that raised}'),
 }
